@@ -177,27 +177,37 @@ Proof.
   change (str_eqb INVALID_HEADER INVALID_HEADER) with true. simpl. lia.
 Qed.
 
-(* what the generated run_step does, case by case (a readable restatement, proved equal) *)
+(* what the generated run_step does, case by case (a readable restatement, proved equal).
+   `verdict`: the accumulated text is checked once and the machine stops. *)
+Definition verdict (st : hstate) : hstate :=
+  mkhs true true (hs_header st)
+       (if searchb header_re (hs_header st) then hs_errs st else hs_errs st ++ [INVALID_HEADER]).
+
 Definition step_spec (st : hstate) (ev : hevent) : hstate :=
   if hs_parsed st then st
-  else if is_comment_ev ev then
-         if str_eqb (ev_tok_type ev) MULT_COMMENT
-         then mkhs true false (hs_header st ++ ev_tok_value ev ++ [10%N]) (hs_errs st)
-         else mkhs true true (hs_header st) (hs_errs st ++ [INVALID_HEADER])
+  else if is_block_ev ev then
+         (* a block comment in column 1: its text joins the header text *)
+         mkhs true false (hs_header st ++ ev_tok_value ev ++ [10%N]) (hs_errs st)
        else if hs_started st then
-              mkhs true true (hs_header st)
-                   (if searchb header_re (hs_header st) then hs_errs st else hs_errs st ++ [INVALID_HEADER])
-            else mkhs false true (hs_header st) (hs_errs st ++ [INVALID_HEADER]).
+              (* anything else - a statement that is not a comment, a // comment, a comment after blanks -
+                 ends the leading block: the text is checked *)
+              verdict st
+            else
+              (* nothing accumulated yet: not a header *)
+              mkhs (is_comment_ev ev) true (hs_header st) (hs_errs st ++ [INVALID_HEADER]).
 
 Lemma run_step_spec : forall st ev, run_step st ev = step_spec st ev.
 Proof.
-  intros [a b h e] ev. unfold run_step, step_spec, parse_header, check_header, is_comment_ev, check_token0,
-    is_False, set_started, set_parsed, set_header, emit. cbn [hs_started hs_parsed hs_header hs_errs].
+  intros [a b h e] ev. unfold run_step, step_spec, verdict, parse_header, check_header, is_block_ev, is_comment_ev,
+    check_token0, is_False, set_started, set_parsed, set_header, emit. cbn [hs_started hs_parsed hs_header hs_errs].
   change (s "IsComment") with IsComment. change (s "MULT_COMMENT") with MULT_COMMENT.
   change (s "INVALID_HEADER") with INVALID_HEADER.
   destruct b; cbn [Bool.eqb]; [reflexivity|].
   destruct (str_eqb (ev_rule ev) IsComment); cbn [andb negb].
-  - destruct (str_eqb (ev_tok_type ev) MULT_COMMENT); reflexivity.
+  - destruct (str_eqb (ev_tok_type ev) MULT_COMMENT); [reflexivity|].
+    destruct a; cbn [Bool.eqb].
+    + destruct (searchb header_re h); reflexivity.
+    + reflexivity.
   - destruct a; cbn [Bool.eqb andb].
     + destruct (searchb header_re h); reflexivity.
     + reflexivity.
@@ -215,6 +225,13 @@ Proof. intros. unfold run_from. apply fold_left_app. Qed.
 Lemma run_from_cons : forall ev evs st, run_from st (ev :: evs) = run_from (run_step st ev) evs.
 Proof. reflexivity. Qed.
 
+Lemma cnt_verdict : forall st, cnt (verdict st) = cnt st \/ cnt (verdict st) = S (cnt st).
+Proof.
+  intros [a b h e]. unfold verdict. cbn [hs_header hs_errs]. destruct (searchb header_re h).
+  - left. reflexivity.
+  - right. rewrite cnt_emit. reflexivity.
+Qed.
+
 (* (c) at most one INVALID_HEADER, for every trace *)
 Lemma once_inv : forall evs st, (hs_parsed st = true \/ cnt st = 0) -> cnt st <= 1 -> cnt (run_from st evs) <= 1.
 Proof.
@@ -222,16 +239,13 @@ Proof.
   rewrite run_from_cons. destruct (hs_parsed st) eqn:Hp.
   - rewrite run_step_spec. unfold step_spec. rewrite Hp. apply IH; auto.
   - destruct H1 as [H1|H1]; [discriminate|].
-    rewrite run_step_spec. unfold step_spec. rewrite Hp. destruct st as [a b h e]. cbn [hs_started hs_parsed hs_header hs_errs] in *.
-    destruct (is_comment_ev ev).
-    + destruct (str_eqb (ev_tok_type ev) MULT_COMMENT).
-      * apply IH; [right; exact H1|]. unfold cnt in *. exact H2.
-      * apply IH; [left; reflexivity|]. rewrite cnt_emit. unfold cnt in *. cbn in *. lia.
-    + destruct a.
-      * destruct (searchb header_re h).
-        -- apply IH; [left; reflexivity|]. unfold cnt in *. exact H2.
-        -- apply IH; [left; reflexivity|]. rewrite cnt_emit. unfold cnt in *. cbn in *. lia.
-      * apply IH; [left; reflexivity|]. rewrite cnt_emit. unfold cnt in *. cbn in *. lia.
+    rewrite run_step_spec. unfold step_spec. rewrite Hp.
+    destruct (is_block_ev ev).
+    + apply IH; [right; exact H1|]. unfold cnt in *. exact H2.
+    + destruct (hs_started st).
+      * apply IH; [left; reflexivity|]. destruct (cnt_verdict st) as [E|E]; rewrite E; lia.
+      * apply IH; [left; reflexivity|]. destruct st as [a b h e]. cbn [hs_header hs_errs]. rewrite cnt_emit.
+        unfold cnt in *. cbn in *. lia.
 Qed.
 
 Theorem at_most_once : forall evs, invalid_count evs <= 1.
@@ -253,58 +267,58 @@ Lemma run_blocks : forall evs st, hs_parsed st = false -> forallb is_block_ev ev
 Proof.
   induction evs as [|ev evs IH]; intros st Hp Hb.
   - destruct st as [a b h e]. cbn in *. subst. rewrite app_nil_r. reflexivity.
-  - cbn [forallb] in Hb. apply andb_prop in Hb. destruct Hb as [Hev Hb]. unfold is_block_ev in Hev.
-    apply andb_prop in Hev. destruct Hev as [Hc Hm].
-    rewrite run_from_cons, run_step_spec. unfold step_spec. rewrite Hp, Hc, Hm.
+  - cbn [forallb] in Hb. apply andb_prop in Hb. destruct Hb as [Hev Hb].
+    rewrite run_from_cons, run_step_spec. unfold step_spec. rewrite Hp, Hev.
     rewrite IH; [|reflexivity|exact Hb]. cbn [hs_started hs_parsed hs_header hs_errs map].
     rewrite lines_text_cons. rewrite <- !app_assoc. cbn [app]. destruct evs; reflexivity.
 Qed.
 
-Definition first_not_comment (rest : list hevent) : bool :=
-  match rest with [] => true | ev :: _ => negb (is_comment_ev ev) end.
-
-(* acceptance: leading block comments whose text matches, then end of file or a non-comment statement *)
-Theorem accept_trace : forall blocks rest,
-  forallb is_block_ev blocks = true -> first_not_comment rest = true ->
-  searches header_re (lines_text (map ev_tok_value blocks)) ->
-  invalid_count (blocks ++ rest) = 0.
+(* once a matching text has been accumulated nothing can be emitted any more, whatever follows *)
+Lemma run_matching : forall rest st, hs_parsed st = false -> hs_started st = true ->
+  searches header_re (hs_header st) -> cnt (run_from st rest) = cnt st.
 Proof.
-  intros blocks rest Hb Hr Hs. unfold invalid_count, run_events. rewrite run_from_app.
-  rewrite (run_blocks blocks ctx_init eq_refl Hb). destruct rest as [|ev rest]; [reflexivity|].
-  cbn in Hr. rewrite run_from_cons, run_step_spec. unfold step_spec. cbn [hs_parsed hs_started hs_header hs_errs].
-  destruct (is_comment_ev ev); [discriminate|].
-  destruct blocks as [|b0 blocks].
-  - exfalso. destruct Hs as (a & b & c & E & Hm). cbn in E. destruct a; [|discriminate]. destruct b; [|discriminate].
-    apply (occ_pat_le (s "/*")) in Hm. vm_compute in Hm. lia.
-  - change (hs_header ctx_init) with (@nil N). cbn [app].
-    apply searchb_correct in Hs. rewrite Hs. rewrite run_parsed by reflexivity. reflexivity.
+  induction rest as [|ev rest IH]; intros st Hp Hs Hm; [reflexivity|].
+  rewrite run_from_cons, run_step_spec. unfold step_spec. rewrite Hp, Hs.
+  destruct (is_block_ev ev).
+  - rewrite IH; [reflexivity|reflexivity|reflexivity|]. cbn [hs_header]. apply searches_app_r. exact Hm.
+  - rewrite run_parsed by reflexivity. unfold verdict. apply searchb_correct in Hm. rewrite Hm.
+    destruct st; reflexivity.
 Qed.
 
-(* rejection 1 (Hm1, Hm2, Hm3): the first statement is not a comment *)
-Theorem reject_first_not_comment : forall ev rest, is_comment_ev ev = false -> invalid_count (ev :: rest) = 1.
+(* acceptance: leading block comments whose text matches; ANY statements may follow *)
+Theorem accept_trace : forall b0 blocks rest,
+  forallb is_block_ev (b0 :: blocks) = true ->
+  searches header_re (lines_text (map ev_tok_value (b0 :: blocks))) ->
+  invalid_count ((b0 :: blocks) ++ rest) = 0.
+Proof.
+  intros b0 blocks rest Hb Hs. unfold invalid_count, run_events. rewrite run_from_app.
+  rewrite (run_blocks (b0 :: blocks) ctx_init eq_refl Hb).
+  change (count_code INVALID_HEADER) with cnt. rewrite run_matching; try reflexivity.
+  cbn [hs_header]. change (hs_header ctx_init) with (@nil N). cbn [app]. exact Hs.
+Qed.
+
+(* rejection 1 (Hm1, Hm2, Hm3, Hm4 and every file whose first statement is not a block comment in column 1) *)
+Theorem reject_first_not_block : forall ev rest, is_block_ev ev = false -> invalid_count (ev :: rest) = 1.
 Proof.
   intros ev rest H. unfold invalid_count, run_events. rewrite run_from_cons, run_step_spec. unfold step_spec.
   cbn [ctx_init hs_parsed hs_started hs_header hs_errs]. rewrite H. rewrite run_parsed by reflexivity. reflexivity.
 Qed.
 
-(* rejection 2 (Hm4): in the leading run of comments one does not start with a block comment *)
-Theorem reject_not_block : forall blocks ev rest, forallb is_block_ev blocks = true ->
-  is_comment_ev ev = true -> str_eqb (ev_tok_type ev) MULT_COMMENT = false ->
-  invalid_count (blocks ++ ev :: rest) = 1.
+Theorem reject_first_not_comment : forall ev rest, is_comment_ev ev = false -> invalid_count (ev :: rest) = 1.
 Proof.
-  intros blocks ev rest Hb Hc Hm. unfold invalid_count, run_events. rewrite run_from_app.
-  rewrite (run_blocks blocks ctx_init eq_refl Hb). rewrite run_from_cons, run_step_spec. unfold step_spec.
-  cbn [hs_parsed hs_started hs_header hs_errs]. rewrite Hc, Hm. rewrite run_parsed by reflexivity. reflexivity.
+  intros ev rest H. apply reject_first_not_block. unfold is_block_ev. rewrite H. reflexivity.
 Qed.
 
-(* rejection 3 (Hm5..Hm8): leading block comments whose text does not match, then a non-comment statement *)
+(* rejection 2 (Hm5..Hm8, a line written as //): leading block comments whose text does not match, then
+   any statement that is not a block comment in column 1 *)
 Theorem reject_text : forall b0 blocks ev rest, forallb is_block_ev (b0 :: blocks) = true ->
-  is_comment_ev ev = false -> ~ searches header_re (lines_text (map ev_tok_value (b0 :: blocks))) ->
+  is_block_ev ev = false -> ~ searches header_re (lines_text (map ev_tok_value (b0 :: blocks))) ->
   invalid_count ((b0 :: blocks) ++ ev :: rest) = 1.
 Proof.
   intros b0 blocks ev rest Hb Hc Hn. unfold invalid_count, run_events. rewrite run_from_app.
   rewrite (run_blocks (b0 :: blocks) ctx_init eq_refl Hb). rewrite run_from_cons, run_step_spec. unfold step_spec.
   cbn [hs_parsed hs_started hs_header hs_errs]. rewrite Hc. change (hs_header ctx_init) with (@nil N). cbn [app].
+  unfold verdict. cbn [hs_header hs_errs].
   destruct (searchb header_re (lines_text (map ev_tok_value (b0 :: blocks)))) eqn:E.
   - exfalso. apply Hn. apply searchb_correct. exact E.
   - rewrite run_parsed by reflexivity. reflexivity.
@@ -657,44 +671,43 @@ Proof.
 Qed.
 
 (* =================================================================== 7. the property, on traces *)
-(* C13, first half.  `more`: further block comments directly below the header (they are appended to the
-   text, the search still succeeds); then end of file or a statement that is not a comment. *)
-Theorem accept_partial : forall f more rest, stamps_ok f = true ->
-  forallb is_block_ev more = true -> first_not_comment rest = true ->
-  invalid_count (header_events f ++ more ++ rest) = 0.
+(* C13, first half: the eleven template lines, then ANY statements (further block comments in column 1 are
+   appended to the header text, the search still succeeds; the first statement of any other kind - code, an empty
+   line, a // comment, a comment after blanks - triggers the one check, which succeeds; end of file: no check). *)
+Theorem accept : forall f rest, stamps_ok f = true -> invalid_count (header_events f ++ rest) = 0.
 Proof.
-  intros f more rest Hf Hm Hr. rewrite app_assoc.
-  assert (Hb : forallb is_block_ev (header_events f ++ more) = true).
-  { rewrite forallb_app. unfold header_events. rewrite block_events. exact Hm. }
-  apply (accept_trace (header_events f ++ more) rest Hb Hr).
-  rewrite map_app, lines_text_app. unfold header_events. rewrite values_of_comment_events.
-  apply searches_app_r. apply header_accepted. exact Hf.
+  intros f rest Hf. pose proof (header_accepted f Hf) as Hs.
+  unfold header_events. remember (template f) as ls eqn:E.
+  destruct ls as [|l ls]; [unfold template, template_mids in E; cbn [map] in E; discriminate|].
+  cbn [map]. apply accept_trace.
+  - change (comment_event l :: map comment_event ls) with (map comment_event (l :: ls)). apply block_events.
+  - change (comment_event l :: map comment_event ls) with (map comment_event (l :: ls)).
+    rewrite values_of_comment_events. exact Hs.
 Qed.
 
-(* the guard of accept_partial cannot be dropped: finding C13-comment-after-header *)
-Theorem accept_refuted_comment_after_header :
-  exists f rest, fields_ok f = true /\ invalid_count (header_events f ++ rest) = 1.
-Proof.
-  exists hud_fields, [line_comment_event (s " note"); mkev (s "IsEmptyLine") (s "NEWLINE") [10%N]].
-  split; vm_compute; reflexivity.
-Qed.
+(* what used to be finding C13-comment-after-header: a // comment (or any other statement) directly below the header *)
+Corollary accept_comment_after_header : forall f x rest, stamps_ok f = true ->
+  invalid_count (header_events f ++ line_comment_event x :: rest) = 0.
+Proof. intros f x rest Hf. apply accept. exact Hf. Qed.
 
 Definition code_event : hevent := mkev (s "IsVarDeclaration") (s "INT") (s "int").
 Definition empty_line_event : hevent := mkev (s "IsEmptyLine") (s "NEWLINE") [10%N].
+(* a block comment after blanks: the statement's first token is the TAB *)
+Definition indented_comment_event : hevent := mkev IsComment (s "TAB") [9%N].
 
 Theorem reject_Hm4 : forall f rest, invalid_count (hm4_events f ++ rest) = 1.
 Proof.
   intros f rest. unfold hm4_events, template_mids. cbn [map app].
-  apply (reject_not_block [] _ _); reflexivity.
+  apply reject_first_not_block. reflexivity.
 Qed.
 
-Theorem reject_Hm5 : forall f ev rest, fields_plain f = true -> is_comment_ev ev = false ->
+Theorem reject_Hm5 : forall f ev rest, fields_plain f = true -> is_block_ev ev = false ->
   invalid_count (hm5_events f ++ ev :: rest) = 1.
 Proof.
   intros f ev rest Hf He. unfold hm5_events. apply reject_text; auto. apply hm5_rejected. exact Hf.
 Qed.
 
-Lemma reject_lines : forall ls ev rest, ls <> [] -> is_comment_ev ev = false ->
+Lemma reject_lines : forall ls ev rest, ls <> [] -> is_block_ev ev = false ->
   ~ searches header_re (lines_text ls) -> invalid_count (map comment_event ls ++ ev :: rest) = 1.
 Proof.
   intros ls ev rest Hne He Hn. destruct ls as [|l ls]; [congruence|]. cbn [map].
@@ -704,7 +717,7 @@ Proof.
     rewrite values_of_comment_events. exact Hn.
 Qed.
 
-Theorem reject_Hm6 : forall k f ev rest, k < 11 -> fields_plain f = true -> is_comment_ev ev = false ->
+Theorem reject_Hm6 : forall k f ev rest, k < 11 -> fields_plain f = true -> is_block_ev ev = false ->
   invalid_count (map comment_event (hm6_lines k f) ++ ev :: rest) = 1.
 Proof.
   intros k f ev rest Hk Hf He. apply reject_lines; auto.
@@ -713,7 +726,7 @@ Proof.
   - apply hm6_rejected; auto.
 Qed.
 
-Theorem reject_Hm7 : forall last n f ev rest, n <> 74 -> fields_plain f = true -> is_comment_ev ev = false ->
+Theorem reject_Hm7 : forall last n f ev rest, n <> 74 -> fields_plain f = true -> is_block_ev ev = false ->
   invalid_count (map comment_event (hm7_lines last n f) ++ ev :: rest) = 1.
 Proof.
   intros last n f ev rest Hn Hf He. apply reject_lines; auto.
@@ -723,13 +736,33 @@ Qed.
 
 Theorem reject_Hm8 : forall k x f ev rest, (k = 5 \/ k = 7 \/ k = 8) -> fields_plain f = true ->
   no_char 42 x = true -> starts_with (keyword_of k) (textline x (art_of k)) = false ->
-  is_comment_ev ev = false ->
+  is_block_ev ev = false ->
   invalid_count (map comment_event (hm8_lines k x f) ++ ev :: rest) = 1.
 Proof.
   intros k x f ev rest Hk Hf Hx Hn He. apply reject_lines; auto.
   - destruct Hk as [ -> | [ -> | -> ] ]; discriminate.
   - apply hm8_rejected; auto.
 Qed.
+
+(* Hm4, one line only: line k+1 of the header written as a // comment (whatever the other lines are written as
+   afterwards): the k block comments before it are checked alone, or nothing was accumulated *)
+Theorem reject_line_as_line_comment : forall k f rest, k < 11 -> fields_plain f = true ->
+  invalid_count (hm4k_events k f ++ rest) = 1.
+Proof.
+  intros k f rest Hk Hf. unfold hm4k_events. rewrite <- !app_assoc. cbn [app].
+  destruct k as [|k].
+  - cbn [firstn map app]. apply reject_first_not_block. reflexivity.
+  - apply reject_lines.
+    + unfold template, template_mids. cbn [map firstn]. discriminate.
+    + reflexivity.
+    + apply too_few_comments_rejected.
+      * apply Forall_firstn. apply template_clines. exact Hf.
+      * rewrite firstn_length. lia.
+Qed.
+
+(* a // comment above an otherwise perfect header *)
+Theorem reject_line_comment_above : forall x f rest, invalid_count (line_comment_event x :: header_events f ++ rest) = 1.
+Proof. intros x f rest. apply reject_first_not_block. reflexivity. Qed.
 
 (* the "non-comment statement follows" guard cannot be dropped: finding C13-comments-only *)
 Theorem reject_refuted_comments_only :
@@ -756,6 +789,27 @@ Example hud_fields_ok : fields_ok hud_fields = true.
 Proof. reflexivity. Qed.
 
 Example hud_accepted : invalid_count (header_events hud_fields ++ [empty_line_event; code_event]) = 0.
+Proof. vm_compute. reflexivity. Qed.
+
+(* the former finding, now accepted: // comment, indented comment, block comment, then code *)
+Example hud_comment_below_accepted :
+  map invalid_count
+    [header_events hud_fields ++ [line_comment_event (s " note"); empty_line_event; code_event];
+     header_events hud_fields ++ [indented_comment_event; empty_line_event; code_event];
+     header_events hud_fields ++ [comment_event (s "/* note */"); line_comment_event (s " x"); code_event];
+     header_events hud_fields ++ [line_comment_event (s " only a comment follows")]]
+  = [0; 0; 0; 0].
+Proof. vm_compute. reflexivity. Qed.
+
+(* // first, and one header line written as // : exactly one *)
+Example hud_line_comment_variants_rejected :
+  map invalid_count
+    [line_comment_event (s " x") :: header_events hud_fields ++ [empty_line_event];
+     hm4k_events 0 hud_fields ++ [empty_line_event]; hm4k_events 5 hud_fields ++ [empty_line_event];
+     hm4k_events 10 hud_fields ++ [empty_line_event];
+     map comment_event (hm7_lines true 73 hud_fields) ++ [line_comment_event (s " x"); code_event];
+     map comment_event (hm6_lines 4 hud_fields) ++ [indented_comment_event; code_event]]
+  = [1; 1; 1; 1; 1; 1].
 Proof. vm_compute. reflexivity. Qed.
 
 Example hud_mutations_rejected :
